@@ -10,7 +10,9 @@ General (nested) transition-system model of the concurrent external-data writer 
   driver thread runs `_write_parallel` for the shard, i.e. it becomes the owner of an inner pool whose
   jobs are the shard's tensors).  All pools share the one `_ByteBudget` (863, 888), the per-tensor
   object locks (806, 889) and the outer callback lock (864-873); an inner `_write_parallel` has in
-  addition its own callback lock (613, 634) which is taken *before* the outer one.
+  addition its own callback lock which is taken *before* the outer one.  Lock order per tensor
+  (`_write_tensor`): tensor-object lock, then the callback lock(s) around the callback only, then
+  the budget.
 
 Threads: the owner of every pool (main thread for pool 0, a driver thread for an inner pool) and
 the pool threads.  Pool threads of one pool are interchangeable.  Labels: `owner q c` (owner of pool
@@ -86,12 +88,15 @@ end Cfg
 
 inductive Pc
   | notStarted
-  /-- about to `with callback_lock` of the inner `_write_parallel` (634), nested writers only -/
+  /-- about to `with self._tensor_write_locks[id(tensor)]` (`_write_tensor`): the tensor lock is the
+      outermost lock, the callback runs under it -/
+  | tAcq
+  /-- about to `with callback_lock` of the inner `_write_parallel`, nested writers only -/
   | cbAcqIn
-  /-- about to take the lock that directly guards the callback (634 single file / 870 shards) -/
+  /-- about to take the lock that directly guards the callback (single file: `callback_lock`;
+      shards: the lock of `_locked_callback`) -/
   | cbAcq
   | cbBody
-  | tAcq
   | bAcq
   | waiting
   | woken
@@ -178,8 +183,11 @@ def writeTask (cfg : Cfg) (fs : List (List Nat)) (i : Nat) : List (List Nat) :=
   let t := cfg.tensors.getD i default
   fs.set t.file (writeAt (fs.getD t.file []) t.off t.data)
 
-/-- first program counter of a tensor written by a thread of pool `q` -/
-def firstPc (cfg : Cfg) (q : Nat) : Pc := if (cfg.pool q).innerCb then .cbAcqIn else .cbAcq
+/-- first program counter of a tensor: the tensor lock -/
+def firstPc (_cfg : Cfg) (_q : Nat) : Pc := .tAcq
+
+/-- program counter after the tensor lock has been taken, for a thread of pool `q` -/
+def afterT (cfg : Cfg) (q : Nat) : Pc := if (cfg.pool q).innerCb then .cbAcqIn else .cbAcq
 
 /-- a pool thread of pool `q` returns to `queue.get` -/
 def addIdle (ps : List PoolSt) (q : Nat) : List PoolSt :=
@@ -219,6 +227,10 @@ def budgetRelease (cfg : Cfg) (s : State) (i : Nat) (ok : Bool) : State :=
 
 def stepTask (cfg : Cfg) (s : State) (i : Nat) : Option State :=
   match s.tasks[i]? with
+  | some .tAcq =>
+      if s.tLocks.getD (cfg.obj i) false then none
+      else some { s with tLocks := s.tLocks.set (cfg.obj i) true
+                         tasks := s.tasks.set i (afterT cfg (cfg.poolOf i)) }
   | some .cbAcqIn =>
       if s.cbIn.getD (cfg.poolOf i) false then none
       else some { s with cbIn := s.cbIn.set (cfg.poolOf i) true, tasks := s.tasks.set i .cbAcq }
@@ -226,15 +238,14 @@ def stepTask (cfg : Cfg) (s : State) (i : Nat) : Option State :=
       if s.cbLock then none
       else some { s with cbLock := true, tasks := s.tasks.set i .cbBody }
   | some .cbBody =>
-      -- callback body, then the `with` blocks are left: outer lock, then the inner one
+      -- callback body, then the `with` blocks are left: outer callback lock, then the inner one
       let s1 : State := { s with log := s.log ++ [i], cbLock := false
                                  cbIn := if (cfg.pool (cfg.poolOf i)).innerCb
                                    then s.cbIn.set (cfg.poolOf i) false else s.cbIn }
-      if cfg.cbFails i then some (finishTask cfg s1 i false)
-      else some { s1 with tasks := s1.tasks.set i .tAcq }
-  | some .tAcq =>
-      if s.tLocks.getD (cfg.obj i) false then none
-      else some { s with tLocks := s.tLocks.set (cfg.obj i) true, tasks := s.tasks.set i .bAcq }
+      if cfg.cbFails i then
+        -- the exception also leaves `with tensor lock`
+        some (finishTask cfg { s1 with tLocks := s1.tLocks.set (cfg.obj i) false } i false)
+      else some { s1 with tasks := s1.tasks.set i .bAcq }
   | some .bAcq => some (budgetTry cfg s i)
   | some .woken => some (budgetTry cfg s i)
   | some .write =>
